@@ -61,6 +61,7 @@ var c17MSVariants = []c17MS{
 	{Lua: ""},
 	{Lua: "return nil"},
 	{Lua: "return false"},
+	{Lua: "return msg", Replace: true}, // handing the message back unchanged IS an answer (it overrides the store policy)
 	{Lua: "msg.mailboxes = {\"m2\"}; return msg", Replace: true, Mailboxes: []string{"m2"}},
 	{Lua: "msg.mailboxes = {}; return msg", Replace: true, Mailboxes: []string{}},
 	{Lua: "msg.mailboxes = {\"m1\", \"m2\"}; return msg", Replace: true, Mailboxes: []string{"m1", "m2"}},
